@@ -5,6 +5,7 @@ import ExponaxModel.Proofs.DFT
 import ExponaxModel.Proofs.ExactLinearModes
 import ExponaxModel.Proofs.ExactLinearIndex
 import ExponaxModel.Proofs.SpectralLayoutEq
+import ExponaxModel.Proofs.SpectralOpsEq
 /-
 C04 — grid, FFT and Fourier-coefficient conventions are mutually consistent.
 Index / layout part (all `N`, no bound).  The DFT part (round trip, single-mode
@@ -234,5 +235,16 @@ theorem C04_generated_slices_grid_wrap (D N : ℕ) {K : Type} [Field K] (L : K) 
 /-- the list of translated functions is pinned: a new layout helper in the source breaks this until it is covered -/
 theorem C04_generated_coverage : Gen.SpectralLayout.generated_functions.length = 15 := by
   rw [generated_functions_eq]; rfl
+
+/-! ### `exponax.fft` / `exponax.ifft`, regenerated from `_spectral.py` on every run (axis selection, inference of the
+omitted arguments), are the model transforms per channel; `ifft` without `num_points` can only infer it for D ≥ 2 -/
+open Exponax.SpectralOpsEq in
+theorem C04_generated_fft_ifft (C D N : ℕ) (hD : 1 ≤ D) (x : Nonlin.MC ℂ) :
+    Gen.SpectralOps.fft [C] D N none x = some (Nonlin.tabC C (fun i => rfftnM D N (x.getD i #[]))) ∧
+      Gen.SpectralOps.ifft [C] D N none (some N) x = some (Nonlin.tabC C (fun i => irfftnM D N (x.getD i #[]))) ∧
+      Gen.SpectralOps.ifft [C] D N (some D) none x =
+        (if 2 ≤ D then some (Nonlin.tabC C (fun i => irfftnM D N (x.getD i #[]))) else none) :=
+  ⟨(fft_eq C D N hD x).2, (ifft_eq C D N hD x).2, ifft_infer_num_points C D N hD x⟩
+
 
 end Exponax
